@@ -10,6 +10,10 @@ buffer type, duplicate / extra field, a second constructor of the struct) is an 
 nothing written), so the C18 capacity obligations are reported unproved rather than skipped.
 The output file is rewritten only if its content changes (no needless Lean rebuild).
 
+Also shape-checks what `return_instance` does to a buffer (`impl Reset` bodies, `BondContainer::clear`,
+`Allocator::{get_instance, return_instance}`, the `verif_is_clean` probes): exit 3 and one
+`RESET-SHAPE FAIL <function>: …` line per body that no longer has the modelled shape.
+
 usage: extract_pool.py [--repo /repo] [--out <file>] [--check]
 """
 import os
@@ -117,6 +121,96 @@ def extract(repo):
     return by_ty
 
 
+def squash(t):
+    return re.sub(r"\s+", "", t)
+
+
+def fn_body(src, header_re, what):
+    return squash(block_after(src, header_re, what))
+
+
+def strip_cfg_verif(src):
+    """drop `#[cfg(qmc_verif)]` items/statements (the hooks) so bodies are compared without them"""
+    out = []
+    i = 0
+    while True:
+        m = re.search(r"#\[cfg\(qmc_verif\)\]", src[i:])
+        if not m:
+            out.append(src[i:])
+            break
+        out.append(src[i : i + m.start()])
+        j = i + m.end()
+        # the guarded item ends at the first `;` or at the matching `}` of the first `{`, whichever comes first at depth 0
+        depth = 0
+        k = j
+        while k < len(src):
+            c = src[k]
+            if c in "({[":
+                depth += 1
+            elif c in ")}]":
+                depth -= 1
+                if depth == 0 and c == "}":
+                    k += 1
+                    break
+            elif c == ";" and depth == 0:
+                k += 1
+                break
+            k += 1
+        i = k
+    return "".join(out)
+
+
+def check_reset_shapes(repo):
+    """What happens to a buffer handed back to the pool (modelled by hand as `Buf.reset` / `BC.clear` /
+    `retBuf` in QmcModel/Pool.lean). Returns a list of (function, message) for every body that no longer has
+    the modelled shape. The same expectations as the C14 check in tools/extract_fields.py (kept
+    self-contained so that a shape C14 does not recognise elsewhere cannot fail C18)."""
+    bad = []
+    a_raw = strip_comments(open(os.path.join(repo, "src", "util", "allocator.rs")).read())
+    b_raw = strip_comments(open(os.path.join(repo, "src", "util", "bondcontainer.rs")).read())
+
+    def expect(src, header_re, what, want, hooks=True):
+        try:
+            got = fn_body(strip_cfg_verif(src) if hooks else src, header_re, what)
+        except Shape as e:
+            bad.append((what, str(e)))
+            return
+        if got != want:
+            bad.append((what, "body is `%s`, modelled shape is `%s`" % (got, want)))
+
+    # impl Reset bodies
+    for ty, hdr, want in (
+        ("Vec<T>", r"impl\s*<\s*T\s*>\s*Reset\s+for\s+Vec\s*<\s*T\s*>\s*\{", "self.clear()"),
+        ("BinaryHeap<T>", r"impl\s*<\s*T\s*>\s*Reset\s+for\s+BinaryHeap\s*<\s*T\s*>\s*\{", "self.clear()"),
+    ):
+        try:
+            ib = block_after(a_raw, hdr, "impl Reset for " + ty)
+        except Shape as e:
+            bad.append(("impl Reset for " + ty, str(e)))
+            continue
+        expect(ib, r"fn\s+reset\s*\(\s*&mut\s+self\s*\)\s*\{", "<%s as Reset>::reset" % ty, want, hooks=False)
+        expect(ib, r"fn\s+verif_is_clean\s*\(\s*&self\s*\)\s*->\s*bool\s*\{", "<%s as Reset>::verif_is_clean" % ty, "self.is_empty()", hooks=False)
+    try:
+        ib = block_after(b_raw, r"impl\s*<[^>]*>\s*Reset\s+for\s+BondContainer\s*<\s*T\s*>\s*\{", "impl Reset for BondContainer<T>")
+        expect(ib, r"fn\s+reset\s*\(\s*&mut\s+self\s*\)\s*\{", "<BondContainer<T> as Reset>::reset", "self.clear();", hooks=False)
+        expect(ib, r"fn\s+verif_is_clean\s*\(\s*&self\s*\)\s*->\s*bool\s*\{", "<BondContainer<T> as Reset>::verif_is_clean",
+               "self.keys.is_empty()&&self.total_weight==0.&&self.map.iter().all(|m|m.is_none())", hooks=False)
+    except Shape as e:
+        bad.append(("impl Reset for BondContainer<T>", str(e)))
+    n_impls = len(re.findall(r"\bReset\s+for\b", a_raw + b_raw))
+    if n_impls != 3:
+        bad.append(("impl Reset", "expected exactly 3 `impl Reset for` (Vec, BinaryHeap, BondContainer), found %d" % n_impls))
+    # BondContainer::clear
+    expect(b_raw, r"pub\s+fn\s+clear\s*\(\s*&mut\s+self\s*\)\s*\{", "BondContainer::clear",
+           "letkeys=&mutself.keys;letmap=&mutself.map;keys.iter().map(|(t,_)|t).for_each(|k|{letbond=k.clone().into();map[bond]=None});keys.clear();self.total_weight=0.;")
+    # Allocator::{get_instance, return_instance} (hooks removed)
+    expect(a_raw, r"fn\s+return_instance\s*\(\s*&mut\s+self\s*,\s*mut\s+t\s*:\s*T\s*\)\s*\{", "Allocator::return_instance",
+           "t.reset();self.instances.push(t)")
+    expect(a_raw, r"fn\s+get_instance\s*\(\s*&mut\s+self\s*\)\s*->\s*T\s*\{", "Allocator::get_instance",
+           'matchself.instances.pop(){None=>{ifself.gen_more{T::default()}else{panic!("Outofinstances.")}}Some(t)=>t,}')
+    return bad
+
+
 def render(by_ty):
     lines = [
         "/-",
@@ -164,6 +258,10 @@ def main():
     except (Shape, OSError, ValueError) as e:
         print("extract_pool: FAIL-CLOSED: %s" % e)
         return 2
+    try:
+        shape_bad = check_reset_shapes(repo)
+    except OSError as e:
+        shape_bad = [("source files", str(e))]
     text = render(by_ty)
     old = open(out).read() if os.path.exists(out) else None
     summary = " ".join("%s=%d" % (t, by_ty[t][1]) for t in ORDER)
@@ -179,6 +277,11 @@ def main():
             f.write(text)
         os.replace(tmp, out)
         print("extract_pool: wrote %s (%s)" % (out, summary))
+    if shape_bad:
+        for fn, msg in shape_bad:
+            print("extract_pool: RESET-SHAPE FAIL %s: %s" % (fn, msg))
+        return 3
+    print("extract_pool: reset shapes ok (Reset for Vec/BinaryHeap/BondContainer, BondContainer::clear, Allocator::{get,return}_instance)")
     return 0
 
 
